@@ -81,6 +81,10 @@ def campaign(rep, kinds, how, hists, seed, per_kind, tag, space=None):
                 crash = next((e for e in tr["ev"] if e["a"] == "Crash"), None)
                 if crash is not None and f == "scheduler_raised":
                     sig["where"], sig["exc"] = crash["where"], crash["exc"].split("(")[0]
+                    if not crash["where"].startswith("restore:"):
+                        # the scheduler itself raised (e.g. DEHB after failures, C13): a C16 matter only if the twin that
+                        # was never interrupted did not raise at the same point -- and then twin_diverged is raised
+                        continue
                 rep.violation(sig, {"campaign": tag, "meta": meta[k], "conf": tr["conf"], "events": tr["ev"],
                                     "all_flags": sorted(v.flags)})
     if traces:
